@@ -66,7 +66,22 @@ TUpStart == /\ IsEvent("up.enter") /\ Ev.kind = call[C].kind /\ Ev.id = call[C].
             /\ UNCHANGED <<bad, scen>>
 TUpReturn == /\ IsEvent("up.exit") /\ D!UpReturn(C, Ev.out) /\ UNCHANGED <<bad, scen>>
 TPublish == /\ IsEvent("dq.publish") /\ D!Publish(C) /\ UNCHANGED <<bad, scen>>
-TClose == /\ IsEvent("dq.done") /\ D!Close(C) /\ UNCHANGED <<bad, scen>>
+\* close(r.done) and the two hooks that follow it - "dq.done" in the leader, "dq.woke" in a waiter - are not ordered by any
+\* lock: either may reach the recorder first. The close itself is therefore an internal step: when a waiter reports
+\* that it woke while the leader has published but not yet logged "dq.done", the close is taken together with the wake-up
+\* (TWokeEarly), and the leader's "dq.done" that follows finds the request closed already.
+TClose == /\ IsEvent("dq.done")
+          /\ \/ D!Close(C)
+             \/ /\ pc[C] = "delete" /\ reqs[myreq[C]].done /\ reqs[myreq[C]].leader = C
+                /\ UNCHANGED <<q, reqs, pc, call, myreq, res, ncalls, upflight, stale>>
+          /\ UNCHANGED <<bad, scen>>
+TWokeEarly == /\ IsEvent("dq.woke") /\ pc[C] = "wait" /\ ~reqs[myreq[C]].done
+              /\ LET ld == reqs[myreq[C]].leader IN
+                 /\ pc[ld] = "close" /\ myreq[ld] = myreq[C]
+                 /\ reqs' = [reqs EXCEPT ![myreq[C]].done = TRUE]
+                 /\ res' = [res EXCEPT ![C] = <<D!Taken(C), myreq[C]>>]
+                 /\ pc' = [pc EXCEPT ![ld] = "delete", ![C] = "ret"]
+              /\ UNCHANGED <<q, call, myreq, ncalls, upflight, stale, bad, scen>>
 TDelete == /\ IsEvent("dq.del") /\ D!Delete(C) /\ UNCHANGED <<bad, scen>>
 \* the follower announces that it is going to block on <-done: no state change
 TWait == /\ IsEvent("dq.wait") /\ pc[C] = "wait"
@@ -81,7 +96,7 @@ TEnd == /\ IsEvent("end") /\ D!Quiescent
         /\ UNCHANGED <<q, reqs, pc, call, myreq, res, ncalls, upflight, stale, bad, scen>>
 
 TNext == TReset \/ TCall \/ TCallPlain \/ TPeek \/ TLos \/ TUpStart \/ TUpReturn \/ TPublish \/ TClose
-         \/ TDelete \/ TWait \/ TWoke \/ TReturn \/ TEnd
+         \/ TDelete \/ TWait \/ TWoke \/ TWokeEarly \/ TReturn \/ TEnd
 
 TSpec == TInit /\ [][TNext]_tvars
 
